@@ -24,6 +24,8 @@ TExpand ==
   /\ LET P == Pairs(Ev.periods)  W == WeeksOf(Ev) IN
      /\ Chk("ExpansionLengthIsSumOfPeriods", WellFormed(P, W) => Len(Ev.got) = Total(P))
      /\ Chk("DayTakesWeekdaySlotOfItsPeriod", WellFormed(P, W) => Ev.got = Expand(P, W))
+     \* the yearly values (SchedulesDb::year_values) and the hours-in-use flags are those of the days of the expansion, in order
+     /\ Chk("YearValuesAreTheValuesOfItsDaysInOrder", "yv_ok" \in DOMAIN Ev => (Ev.yv_ok /\ Ev.nz_ok))
 
 \* HULC SCHEDULE-PD (end dates) -> periods
 TConvYear ==
